@@ -6,7 +6,9 @@ import implre
 import directed
 
 DESCRIPTION = ("Lean: Props/C10.lean (the wrappers' in-progress set discipline computes exactly the frame-stack semantics; "
-               "termination for contracts that re-enter; fuel monotonicity; the upstream discipline diverged). Tie: programs of "
+               "termination in general: contracts add no divergence - if the program stripped of its contracts finishes within some "
+               "depth, so does the contracted one, within a depth depending on the program only - and its corollary for invariants "
+               "calling public methods; fuel monotonicity; the upstream discipline diverged). Tie: programs of "
                "scripts (conditions / bodies / invariants that call each other) are built as real contracted functions and "
                "classes and run under a lowered recursion limit; every dynamic call's evaluations are logged. Oracle: the "
                "frame-stack reference semantics (Spec/Frames.lean), which never mentions the in-progress set.")
